@@ -96,6 +96,8 @@ def expander(pid, tier, types):
                 return []      # the decoder has no notion of field-level EXPLICIT: exercised on the encoder only
             out.append(dict(id=bid, mode="shape", type="shape", top=c["top"], members=c["members"], leaf=c["leaf"],
                             seed=seed0 + c["seed"], params="", n=mut))
+        elif mode == "foreign":
+            out.append(dict(id=bid, mode="foreign", type=c["kind"], bytes=c["bytes"], n=mut, params="", seed=seed0))
         elif mode == "fuzz":
             out.append(dict(id=bid, mode="fuzz", type="fuzz", only=c["only"], n=2 if quick else 3, params="", seed=seed0))
         return out
@@ -136,7 +138,7 @@ def check(pid, tier, replay=None):
         if pid == "C16" and tier == "quick":
             cap = 1500
         if len(behs) > cap:
-            keep = lambda b: (b["mode"] in ("prim", "fuzz") or b.get("present") in ("only", "defaults", "deepest")   # noqa: E731  systematic cases
+            keep = lambda b: (b["mode"] in ("prim", "fuzz", "foreign") or b.get("present") in ("only", "defaults", "deepest")   # noqa: E731  systematic cases
                               or any(m["tag"] < 0 for m in b.get("members") or []))
             prim = [b for b in behs if keep(b)]
             rest = [b for b in behs if not keep(b)]
